@@ -116,6 +116,10 @@ fn dna_case(dna: &[u8], cfg: &crate::gen::GenCfg) -> (ModelGame, Comp, bool) {
 	(crate::gen::gen_model(&mut d, cfg), comp, hash)
 }
 
+pub fn forced_model_pub(i: usize) -> (ModelGame, Comp, bool, &'static str) {
+	forced_model(i)
+}
+
 pub fn case(ctx: &Ctx, kind: &str, params: &Value, counting: bool) -> Result<(), Fail> {
 	match kind {
 		"forced" => {
